@@ -51,10 +51,9 @@ impl MergeCtx {
 
         match state {
             ExecutedState::Call(CallResult::Executed(ValueRef::Stream { generation, .. })) => Ok(*generation),
-            // such Aps are always preceded by Fold where corresponding stream could be used
-            // so it's been already checked that res_generation is well-formed
-            // and accessing 0th element is safe here
-            ExecutedState::Ap(ap_result) => Ok(ap_result.res_generations[0]),
+            // a fold lore from untrusted data could point to any Ap state, including ones that
+            // haven't been checked by the ap merger, so res_generations could be empty here
+            ExecutedState::Ap(ApResult { res_generations }) if !res_generations.is_empty() => Ok(res_generations[0]),
             state => Err(KeeperError::NoStreamState { state: state.clone() }),
         }
     }
